@@ -181,6 +181,15 @@ func replayFile(path string) int {
 		fmt.Fprintln(os.Stderr, "no configuration in this probe")
 		return 2
 	}
+	if v.Property == "C15" {
+		nv := runC15(e, v.Plan.Tasks[0], nil)
+		if nv == nil {
+			fmt.Printf("NOT-REPRODUCED property=%s recorded-sig=%s\n", v.Property, v.Sig)
+			return 0
+		}
+		fmt.Printf("REPRODUCED property=%s sig=%s recorded-sig=%s\n%s\n", v.Property, nv.Sig, v.Sig, nv.Detail)
+		return 1
+	}
 	judge := judges[v.Property]
 	if judge == nil {
 		fmt.Fprintln(os.Stderr, "no judge for", v.Property)
